@@ -139,7 +139,9 @@ def classify_sanlog(lp, pid):
     txt = open(path, errors="replace").read()
     kind = "unknown"
     if "WARNING: ThreadSanitizer: data race" in txt:
-        fm = re.search(r"#0 (\w+) (/repo/[^\s:]+)", txt)
+        # the library function that made the first of the two accesses (frames of libc and of the harness are skipped)
+        first = txt[txt.find("#0 "):].split("\n\n", 1)[0] if "#0 " in txt else ""
+        fm = re.search(r"#\d+ (\w+) (/\S*/src/[^\s:]+)", "\n".join(l for l in first.splitlines() if "/verif/sim/" not in l))
         loc = re.search(r"Location is global '([^']+)'", txt)
         func = fm.group(1) if fm else "?"
         try:
@@ -161,6 +163,16 @@ def classify_sanlog(lp, pid):
         if "/repo/src/" in fm.group(2) or "/src/" in fm.group(2) and "/verif/" not in fm.group(2):
             func = fm.group(1)
             break
+    if "AddressSanitizer" in txt or "runtime error" in txt:
+        # the faulting access itself: if no library frame is on that stack, the harness is at fault
+        first = txt[txt.find("#0 "):].split("\n\n", 1)[0] if "#0 " in txt else ""
+        frames = re.findall(r"#\d+ 0x[0-9a-f]+ in (\w+) (/[^\s:]+)", first)
+        if frames and not any(("/src/" in f and "/verif/" not in f) for _, f in frames) and any("/verif/sim/" in f for _, f in frames):
+            try:
+                os.unlink(path)
+            except OSError:
+                pass
+            return f"harness:{kind}@{frames[0][0]}", txt[:3000]
     try:
         os.unlink(path)
     except OSError:
@@ -444,6 +456,15 @@ def run_check(prop, tier, seed):
     harness = [d for k, d in results if k == "harness"]
     is_leak_prop = cfg.get("leak", False)
 
+    for c in crashes:
+        if c["class"].startswith("harness:"):
+            harness.append({"msg": f"sanitizer error inside the harness ({c['class']}) in {c['scn']}/{c['variant']} run {c['idx']}: {c['detail'][:300]}"})
+    if not runs and not crashes and not harness:
+        harness.append({"msg": "no simulated run completed"})
+    for part in parts:
+        if not any(d["scn"] == part[0] and d["variant"] == part[1] for d in runs) and not harness:
+            if not any(c["scn"] == part[0] and c["variant"] == part[1] for c in crashes):
+                harness.append({"msg": f"part {part[0]}/{part[1]} completed no run"})
     if harness:
         for h in harness[:5]:
             print("HARNESS-ERROR", h["msg"][:500])
